@@ -7,6 +7,7 @@ import (
 	"sort"
 	"strconv"
 	"strings"
+	"sync"
 	"time"
 
 	ds "github.com/ipfs/go-datastore"
@@ -25,6 +26,7 @@ type storeCfg struct {
 	batch, cache int
 	flavour      string // plain | ctx
 	n            int    // chain length; observations cover heights 0..n+1
+	par          int    // > 0: DeleteRange takes the parallel path for ranges of at least this size
 }
 
 type storeOp struct {
@@ -59,6 +61,7 @@ type hcall struct {
 
 type storeRun struct {
 	cfg     storeCfg
+	hmu     sync.Mutex
 	core    *memds.Core
 	dsi     ds.Batching
 	st      *store.Store[*vhdr.Header]
@@ -74,6 +77,9 @@ var storeT0 = time.Now().Add(-24 * time.Hour).UnixNano()
 
 func newStoreRun(cfg storeCfg, core *memds.Core) *storeRun {
 	r := &storeRun{cfg: cfg, core: core, byHash: map[string]uint64{}}
+	if cfg.par > 0 {
+		store.VerifSetDeleteRangeParallelThreshold(uint64(cfg.par))
+	}
 	r.chain = vhdr.Chain("A", cfg.n+2, storeT0, int64(time.Second), 0)
 	for _, h := range r.chain {
 		r.byHash[h.Hash().String()] = h.H
@@ -106,6 +112,8 @@ func (r *storeRun) open() error {
 
 func (r *storeRun) register(i int) {
 	r.st.OnDelete(func(ctx context.Context, height uint64) error {
+		r.hmu.Lock() // the parallel delete path calls handlers from several workers
+		defer r.hmu.Unlock()
 		idx := r.counts[i]
 		r.counts[i]++
 		// same context values (read transaction, write batch) but already cancelled: never parks
@@ -322,6 +330,10 @@ func (r *storeRun) callsString() string {
 	if len(r.calls) == 0 {
 		return "-"
 	}
+	if r.cfg.par > 0 {
+		// parallel path: the order across heights is not defined; per height the handlers still run in order
+		sort.SliceStable(r.calls, func(i, j int) bool { return r.calls[i].height < r.calls[j].height })
+	}
 	s := make([]string, len(r.calls))
 	for i, c := range r.calls {
 		s[i] = fmt.Sprintf("%d@%d:%d", c.handler, c.height, b2i(c.readable))
@@ -378,6 +390,9 @@ func (r *storeRun) do(op storeOp, withRanges bool) {
 }
 
 func (r *storeRun) close() {
+	if r.cfg.par > 0 {
+		store.VerifSetDeleteRangeParallelThreshold(10000)
+	}
 	if r.st != nil {
 		c, cancel := context.WithTimeout(context.Background(), 2*time.Second)
 		_ = r.st.Stop(c)
